@@ -219,6 +219,93 @@ func c14Shared(o *Out, r *rand.Rand) {
 	}
 }
 
+// c14ConcurrentPublishers: several goroutines call Update on ONE discovery at the same time (two registry
+// watchers, a reload racing a health checker).  Whatever order the discovery puts them in, the list it
+// ends up holding (GetServices) is the last published one, and every client watching it must converge to
+// exactly that list – no client may be left on a list that a later update replaced.
+func c14ConcurrentPublishers(o *Out, r *rand.Rand) {
+	rounds := 150
+	if thorough() {
+		rounds = 1500
+	}
+	nClients := 8
+	sc := &fakeScenario{perAddr: map[string]fakeOutcome{}}
+	for i := 0; i < nClients*(rounds*8+50); i++ {
+		sc.dials = append(sc.dials, true)
+	}
+	setScenario(sc)
+	d, _ := client.NewMultipleServersDiscovery([]*client.KVPair{{Key: "fake@seed"}})
+	opt := client.DefaultOption
+	opt.Retries = 0
+	var xcs []client.XClient
+	for k := 0; k < nClients; k++ {
+		xcs = append(xcs, client.NewXClient("Svc", client.Failfast, client.RoundRobin, d, opt))
+	}
+	defer func() {
+		for _, xc := range xcs {
+			xc.Close()
+		}
+	}()
+	const publishers = 4
+	for round := 0; round < rounds; round++ {
+		var wg sync.WaitGroup
+		gate := make(chan struct{})
+		for p := 0; p < publishers; p++ {
+			wg.Add(1)
+			go func(p int) {
+				defer wg.Done()
+				list := []*client.KVPair{{Key: fmt.Sprintf("fake@r%d-p%d-a", round, p)}, {Key: fmt.Sprintf("fake@r%d-p%d-b", round, p)}}
+				<-gate
+				d.Update(list)
+			}(p)
+		}
+		close(gate)
+		wg.Wait()
+		want := map[string]bool{}
+		for _, kv := range d.GetServices() {
+			want[kv.Key] = true
+		}
+		o.Count("concurrent-publishers.rounds")
+		bad := ""
+		for deadline := time.Now().Add(2 * time.Second); ; {
+			bad = ""
+			for ci, xc := range xcs {
+				got := map[string]bool{}
+				for i := 0; i < 4; i++ {
+					reply := &fakeReply{}
+					if err := xc.Call(context.Background(), "M", i, reply); err == nil {
+						got[reply.Addr] = true
+					}
+				}
+				for a := range got {
+					if !want[a] {
+						bad = fmt.Sprintf("client %d selects %s, which is not in the list the discovery holds after the concurrent updates", ci, a)
+					}
+				}
+				if len(got) != len(want) && bad == "" {
+					bad = fmt.Sprintf("client %d reaches %d of the %d servers of the list the discovery holds", ci, len(got), len(want))
+				}
+			}
+			if bad == "" || time.Now().After(deadline) {
+				break
+			}
+			time.Sleep(5 * time.Millisecond)
+		}
+		if bad != "" {
+			var held []string
+			for a := range want {
+				held = append(held, a)
+			}
+			sort.Strings(held)
+			o.Eval(fmt.Sprintf("concurrent publishers round %d", round), true)
+			o.Violate("c14.concurrent-publishers.stale-list", fmt.Sprintf("%d goroutines called Update at once (round %d); 2 s later: %s", publishers, round, bad),
+				map[string]any{"publishers": publishers, "clients": nClients, "round": round, "discovery_holds": held})
+			return
+		}
+	}
+	o.Eval(fmt.Sprintf("concurrent publishers %d rounds x %d publishers, %d clients", rounds, publishers, nClients), true)
+}
+
 // c14Churn: clients that share one discovery come and go while updates are published.  Closing one
 // client (its watcher is removed from the discovery, in a goroutine of its own) concurrently with the
 // fan-out of an update must not make any OTHER, still running client miss that update.
@@ -333,6 +420,7 @@ func runC14(o *Out, r *rand.Rand) {
 	c14Filter(o, r)
 	c14Shared(o, r)
 	c14Churn(o, r)
+	c14ConcurrentPublishers(o, r)
 	c14LateSelector(o, r)
 	n := 40
 	if thorough() {
